@@ -71,6 +71,16 @@ Example C49_refuted_witness :
               load (print c2) = Ok c2).
 Proof. exact refuted_witness. Qed.
 
+(* Where the losses are: a well-typed configuration can be lossy only at an omitempty field whose
+   load-time base is not zero (generic: lossy_in_risky_mut); for the modelled Prometheus schema
+   these are the 31 fields of risky_fields (computed from the tags and defaults; listed in
+   ConfigProofs.risky_fields_list).  For 14 of them validation rejects or repairs the zero value
+   (the relabel action in its 6 places, protobuf_message, queue_config and its 4 positive
+   settings, runtime and runtime.gogc); the other 17 are lossy on the real code (findings). *)
+Theorem C49_lossy_only_risky : forall c x,
+  wtb top_ty c = true -> In x (lossy_fields c) -> In x risky_fields.
+Proof. exact lossy_only_risky. Qed.
+
 (* Idempotence of load-after-print ("load (print (load (print c))) = load (print c)"), PARTIAL.
    Full statement: forall c, wtb top_ty c = true -> forall c1, load (print c) = Ok c1 ->
    load (print c1) = Ok c1.  Proved: the same statement for every schema whose hooks only check
